@@ -2,8 +2,12 @@ CLAIM = ("Termination and work bounds as solver queries: explicit step budgets (
          "unwinding assertions with bounds derived from the input sizes, over the skip loops, the SFX scan, the decoder read loop "
          "and the header-extension loops; allocation sizes bounded by constants + bytes consumed.")
 ASSUMPTIONS = ["source read contract: returns <= requested, 0 at end of data, -1 on error"]
+from C16 import SKIP, it
+from hdr_common import l1ext, walk, extend
+from rsm_common import pos
 HARNESSES = [
     dict(name="skip.fallback", src="C13/skip.c", unwind=9, units=["lib/lha_input_stream.c:lha_input_stream_skip"], timeout=300,
          bounds="skip of 0..70 bytes over a stream of 0..100 bytes the first 3 reads arbitrarily short; budget ceil(bytes/32)+4 source reads",
-         stubs=["src_read: symbolic source, symbolic short reads, 0 at end"]),
+         stubs=["src_read: symbolic source, symbolic short reads, 0 at end"], unwind_is_property=True),
+    SKIP, it(len0=0, ret=24, timeout=120), it(len0=12, ret=1, timeout=120), it(len0=3, ret=0, timeout=120), l1ext(13), walk(16), extend(3), pos(3),
 ]
